@@ -1,6 +1,6 @@
 (* E1 Lattice engine -- shipped lattice bimorphisms (C07): executable model of
    CartesianProductBimorphism (set_union.rs), KeyedBimorphism (map_union.rs) and PairBimorphism
-   (pair.rs), a small code of bimorphism shapes (every nesting Keyed<..Keyed<Cartesian>..>), and
+   (pair.rs), a small code of bimorphism shapes (every nesting of Keyed over Cartesian / Pair), and
    the observation the harness h_morph makes on the real crate.  Definitions only.
    The GHT bimorphisms of lattices/src/ght/lattice.rs are NOT modelled here. *)
 From HV Require Export Lattice.Univ.
@@ -23,45 +23,38 @@ Definition cart (a b : list N) : list N :=
 (* ---------------------------------------------------------------- map_union.rs *)
 Section Keyed.
   Variables VA VB VO : Type.
+  Variable LA : LatOps VA.              (* IsBot of MapA::Item *)
+  Variable LB : LatOps VB.              (* IsBot of MapB::Item *)
   Variable f : VA -> VB -> VO.          (* the wrapped bimorphism's call *)
 
   (* for (key, val_a) in lat_a.iter() {
        let Some((_, val_b)) = lat_b.get_key_value(key) else { continue };
+       if val_a.is_bot() || val_b.is_bot() { continue; }       // repo commit 77f6722ffe1
        output.insert(key.clone(), bimorphism.call(val_a.clone(), val_b.clone())) }
-     -- MapInsert::insert = insert or overwrite = [map_put]; nothing is filtered: the result of
-     the inner call is inserted even when it is bottom *)
+     -- MapInsert::insert = insert or overwrite = [map_put]; the RESULT of the inner call is not
+     filtered: it is inserted even when it is bottom *)
   Definition keyed_step (b : list (N * VB)) (out : list (N * VO)) (kv : N * VA) : list (N * VO) :=
-    match get (fst kv) b with
-    | None => out
-    | Some vb => map_put out (fst kv, f (snd kv) vb)
-    end.
-
-  Definition keyed (a : list (N * VA)) (b : list (N * VB)) : list (N * VO) :=
-    fold_left (keyed_step b) a [].
-End Keyed.
-
-(* ---------------------------------------------------------------- proposed repair of KeyedBimorphism *)
-(* fixes/C07_keyed_skip_bottom.diff: a bottom-valued entry is the same lattice value as a missing
-   entry, so it produces no output entry:
-       if val_a.is_bot() || val_b.is_bot() { continue; }
-   NOT the code in /repo; modelled to prove the repair correct (PMorph.keyed_fixed_bimorph: a
-   bimorphism for ANY wrapped bimorphism, bottom-preserving or not). *)
-Section KeyedFixed.
-  Variables VA VB VO : Type.
-  Variable LA : LatOps VA.
-  Variable LB : LatOps VB.
-  Variable f : VA -> VB -> VO.
-
-  Definition keyed_fixed_step (b : list (N * VB)) (out : list (N * VO)) (kv : N * VA) : list (N * VO) :=
     match get (fst kv) b with
     | None => out
     | Some vb => if isbot LA (snd kv) || isbot LB vb then out
                  else map_put out (fst kv, f (snd kv) vb)
     end.
 
-  Definition keyed_fixed (a : list (N * VA)) (b : list (N * VB)) : list (N * VO) :=
-    fold_left (keyed_fixed_step b) a [].
-End KeyedFixed.
+  Definition keyed (a : list (N * VA)) (b : list (N * VB)) : list (N * VO) :=
+    fold_left (keyed_step b) a [].
+
+  (* HISTORICAL: the loop before repo commit 77f6722ffe1 "fix: KeyedBimorphism skips
+     bottom-valued entries" had no is_bot test.  Kept only for the former witness
+     (PMorph.keyed_old_pair_witness): around a wrapped bimorphism that does not map bottom to
+     bottom (PairBimorphism) it did not distribute over merge. *)
+  Definition keyed_old_step (b : list (N * VB)) (out : list (N * VO)) (kv : N * VA) : list (N * VO) :=
+    match get (fst kv) b with
+    | None => out
+    | Some vb => map_put out (fst kv, f (snd kv) vb)
+    end.
+  Definition keyed_old (a : list (N * VA)) (b : list (N * VB)) : list (N * VO) :=
+    fold_left (keyed_old_step b) a [].
+End Keyed.
 
 (* ---------------------------------------------------------------- pair.rs *)
 Definition pairb (A B : Type) (a : A) (b : B) : A * B := (a, b).
@@ -84,15 +77,7 @@ Fixpoint bapply (s : bshape) : val (ty_a s) -> val (ty_b s) -> val (ty_o s) :=
   match s return val (ty_a s) -> val (ty_b s) -> val (ty_o s) with
   | BCart => cart
   | BPair ta tb => @pairb (val ta) (val tb)
-  | BKeyed s' => keyed (bapply s')
-  end.
-
-(* the same shapes with the repaired KeyedBimorphism *)
-Fixpoint bapply_fixed (s : bshape) : val (ty_a s) -> val (ty_b s) -> val (ty_o s) :=
-  match s return val (ty_a s) -> val (ty_b s) -> val (ty_o s) with
-  | BCart => cart
-  | BPair ta tb => @pairb (val ta) (val tb)
-  | BKeyed s' => keyed_fixed (ops (ty_a s')) (ops (ty_b s')) (bapply_fixed s')
+  | BKeyed s' => keyed (ops (ty_a s')) (ops (ty_b s')) (bapply s')
   end.
 
 (* every PairBimorphism inside is over lattices satisfying C01's side condition *)
@@ -103,18 +88,10 @@ Fixpoint types_ok (s : bshape) : bool :=
   | BKeyed s' => types_ok s'
   end.
 
-(* Keyed<..Keyed<Cartesian>..>: no PairBimorphism inside *)
-Fixpoint nopair (s : bshape) : bool :=
-  match s with BCart => true | BPair _ _ => false | BKeyed s' => nopair s' end.
-
-(* the shapes for which distributivity is claimed: the Keyed/Cartesian towers and
-   PairBimorphism itself (over lattices satisfying C01's side condition); a KeyedBimorphism
-   around a PairBimorphism is NOT a bimorphism (PMorph.keyed_pair_refuted) *)
-Definition shape_ok (s : bshape) : bool :=
-  match s with
-  | BPair ta tb => key_total ta && key_total tb
-  | _ => nopair s
-  end.
+(* the shapes for which distributivity is claimed: ALL of them (since the repair, a
+   KeyedBimorphism around a PairBimorphism is a bimorphism too), over lattices satisfying C01's
+   side condition *)
+Definition shape_ok (s : bshape) : bool := types_ok s.
 
 (* ---------------------------------------------------------------- correspondence *)
 (* what h_morph observes for a case (a, da, b, db) *)
@@ -143,8 +120,6 @@ Definition model_bobs_gen (s : bshape) (ap : val (ty_a s) -> val (ty_b s) -> val
      bo_eq_l := eqb LO l ml; bo_eq_r := eqb LO r mr |}.
 
 Definition model_bobs (s : bshape) := model_bobs_gen s (bapply s).
-(* against a checkout with the repair applied (HV_KEYED_FIXED=1) *)
-Definition model_bobs_fixed (s : bshape) := model_bobs_gen s (bapply_fixed s).
 
 Definition bobs_agree (s : bshape) (i mo : bobs s) : bool :=
   let t := ty_o s in
@@ -158,6 +133,3 @@ Definition C07_holds_b (s : bshape) (i : bobs s) : bool := bo_eq_l i && bo_eq_r 
 
 Definition bchk (s : bshape) (a da : val (ty_a s)) (b db : val (ty_b s)) (i : bobs s) : N :=
   verdict (bobs_agree s i (model_bobs s a da b db)) (C07_holds_b s i).
-
-Definition bchk_fixed (s : bshape) (a da : val (ty_a s)) (b db : val (ty_b s)) (i : bobs s) : N :=
-  verdict (bobs_agree s i (model_bobs_fixed s a da b db)) (C07_holds_b s i).
